@@ -315,16 +315,23 @@ where
         let storage = self.storage;
         storage.log.load_object(r);
 
-        // an object may consist of nothing but a reference to another object: follow such a chain here, so that
-        // no caller ever gets a reference back (readers resolve and retry, which would never end on a cycle)
-        let mut r = r;
-        for _ in 0 .. 32 {
-            match storage.resolve_ref(r, flags | ParseFlags::REF, self)? {
-                Primitive::Reference(next) => r = next,
-                p => return Ok(p)
+        let p = storage.resolve_ref(r, flags, self)?;
+        // an object may consist of nothing but a reference to another object. readers resolve and retry, which never
+        // ends when such objects form a cycle: make sure the chain that starts here comes to an end
+        if let Primitive::Reference(mut next) = p {
+            let mut seen = vec![r.id];
+            loop {
+                if seen.contains(&next.id) || seen.len() > 32 {
+                    bail!("object {} is the start of a reference cycle (or of a chain of more than 32 references)", r.id);
+                }
+                seen.push(next.id);
+                match storage.resolve_ref(next, ParseFlags::ANY, self) {
+                    Ok(Primitive::Reference(n)) => next = n,
+                    _ => break
+                }
             }
         }
-        bail!("object {} is the start of a chain of more than 32 references (or of a reference cycle)", r.id)
+        Ok(p)
     }
 
     fn get<T: Object+DataSize>(&self, r: Ref<T>) -> Result<RcRef<T>> {
